@@ -28,6 +28,8 @@ func run(c *core.Ctx) {
 			adwire.ReplayLitCase(c, sc)
 		case "ClassAdWire":
 			adwire.ReplayAdFile(c, sc)
+		case "ItemSplit":
+			adwire.ReplaySplitCase(c, sc)
 		default:
 			c.Broken("replay file of unknown kind %q", kind)
 		}
@@ -42,7 +44,16 @@ func run(c *core.Ctx) {
 	var litRows []adwire.LitRow
 	var wireRows, stimeRows []adwire.WireRow
 	okLit, okWire, okStime := false, false, false
-	wg.Add(6)
+	var splitRows []adwire.SplitRow
+	genSplit := "Gen_C08_split_quick.cfg"
+	if c.Thorough() {
+		genSplit = "Gen_C08_split_thorough.cfg"
+	}
+	wg.Add(7)
+	go func() { // model check (SplitAtFirstEq) and enumeration in one run
+		defer wg.Done()
+		splitRows = adwire.ParseSplitRows(c, kit.Generate(c, "Gen_ItemSplit.tla", genSplit, tlc.Options{}))
+	}()
 	go func() {
 		defer wg.Done()
 		okStime = kit.ModelCheck(c, "ClassAdWire.tla", "MC_C08_stime.cfg", tlc.Options{Workers: 2}) != nil
@@ -80,6 +91,10 @@ func run(c *core.Ctx) {
 		c.Sample(litRows[len(litRows)/2+i])
 	}
 
+	// (1b) every raw item text over the spacing alphabet: first-'=' split, three receivers agree
+	sp := adwire.ReplaySplit(c, splitRows)
+	sp.Publish(c)
+
 	// (2) ad shapes x value pool (grammar expressions, strings) x sender APIs x framings x receivers
 	pool, counts := adwire.ExprPool(c.Thorough(), c.Rand("c08-expr"))
 	c.Set("value_pool", counts)
@@ -98,5 +113,5 @@ func run(c *core.Ctx) {
 	t := adwire.RunScenarios(c, scs)
 	t.Publish(c, "wire_")
 	c.Set("exhaustive", true)
-	c.Set("rule", "cases = (a) every token sequence over the 15-token literal alphabet up to the tier's length, enumerated by TLC with its predicted grammar class and fast-path branch, each sent as `A = <text>` through PutClassAdRaw -> real stream -> GetClassAd in two concretisations (canonical on a plain stream, seeded on an encrypting stream) and compared with the full parser; (b) every ad shape of Gen_ClassAdWire (0..3 attributes public/private x option word x stream state x type names x cut plan; plus the ServerTime dimension: option on/off x the ad carries its own ServerTime attribute in lower/upper/mixed case or not) carrying the values of the grammar pool (all productions to depth 1, depth 2 over every depth-1 expression, all strings over a 15-character set to the tier's length, seeded deeper nesting), sent by every sender API (PutClassAdRawBytes with all expressions in one shared scratch buffer passed as sub-slices, the buffer compared afterwards), decoded from the sender's framing and from reference re-framings by GetClassAd / GetClassAdWithMaxSize / GetClassAdRaw / SkipClassAdRaw, and by GetClassAdWithMaxSize under every byte budget from 0 to past the message (every shape x sender once; field boundaries +-1 on the repetitions): a clean error or exactly the unlimited result; distinct = distinct scenario; non-trivial = the parser assigns the text an expression (a) / the ad has an attribute (b)")
+	c.Set("rule", "cases = (a) every token sequence over the 15-token literal alphabet up to the tier's length, enumerated by TLC with its predicted grammar class and fast-path branch, each sent as `A = <text>` through PutClassAdRaw -> real stream -> GetClassAd in two concretisations (canonical on a plain stream, seeded on an encrypting stream) and compared with the full parser; (a2) every item text over {name char, blank, '=', value char, quote} up to the tier's length whose name is an identifier (Gen_ItemSplit, with its reference split and spacing class) plus hand-expanded items with '=' inside strings and calls, sent as ONE pre-rendered item by PutClassAdRaw / PutClassAdRawBytes on plain and encrypting streams: GetClassAd / GetClassAdWithMaxSize must yield exactly the attribute named by the trimmed text before the first '=' with the value the full parser assigns to the trimmed rest, and agree with GetClassAdRaw / SkipClassAdRaw on consumption; (b) every ad shape of Gen_ClassAdWire (0..3 attributes public/private x option word x stream state x type names x cut plan; plus the ServerTime dimension: option on/off x the ad carries its own ServerTime attribute in lower/upper/mixed case or not) carrying the values of the grammar pool (all productions to depth 1, depth 2 over every depth-1 expression, all strings over a 15-character set to the tier's length, seeded deeper nesting), sent by every sender API (PutClassAdRawBytes with all expressions in one shared scratch buffer passed as sub-slices, the buffer compared afterwards), decoded from the sender's framing and from reference re-framings by GetClassAd / GetClassAdWithMaxSize / GetClassAdRaw / SkipClassAdRaw, and by GetClassAdWithMaxSize under every byte budget from 0 to past the message (every shape x sender once; field boundaries +-1 on the repetitions): a clean error or exactly the unlimited result; distinct = distinct scenario; non-trivial = the parser assigns the text an expression (a) / the ad has an attribute (b)")
 }
